@@ -25,3 +25,7 @@ for v in (0, 1, 2):
         ob(v, "hf_decrypt", ["C02", "C01", "C12"], "clen < 16 rejected untouched; otherwise detached semantics on (c, clen-16, c+clen-16); *mlen_p = clen-16 on success, 0 on failure"),
         ob(v, "hf_keygen", ["C18"], "keygen requests exactly KEYBYTES from the random source into k"),
     ]
+
+# AEGIS soft decrypt_detached (harness/aegis.c) was attempted: CBMC's symbolic execution does not finish on the 8-block
+# state machine within 15 minutes even for mlen <= 40 with the AES round abstracted; the obligation is therefore not
+# registered (DESIGN.md 11.2: AEGIS not covered).
